@@ -26,7 +26,8 @@ for m in sorted(glob.glob(str(V / "seeded" / "*" / "meta.json"))):
             how.append("failing input on the implementation" if r.get("violation_lines") and not r.get("no_failing_input_found") else "proof/correspondence break (no failing input found)")
     fr = (d.get("first_run") or {}).get("detected_by")
     first = "" if fr is None else ("caught" if any(r.get("exit") for r in fr.values()) else "missed")
-    rows.append(f"| {name} | {esc(d.get('title') or d.get('what_changed',''))[:110]} | {esc(d.get('needs_to_manifest',''))[:140]} | {', '.join(caught) or '**missed**'} | {'; '.join(sorted(set(how)))} | {first} |")
+    status = ', '.join(caught) or ('— (neutralised by a later fix: commit; no longer breaks the property)' if d.get('neutralised') else '**missed**')
+    rows.append(f"| {name} | {esc(d.get('title') or d.get('what_changed',''))[:110]} | {esc(d.get('needs_to_manifest',''))[:140]} | {status} | {'; '.join(sorted(set(how)))} | {first} |")
 seeded = "\n".join(rows)
 p = V / "DESIGN.md"
 s = p.read_text()
